@@ -468,7 +468,9 @@ fn check_c06_finite(case: &Case, index: usize, with_invariant: bool) -> CaseOut 
 fn check_c06_infinite(case: &Case, index: usize) -> CaseOut {
     crate::ev::progress("c06-infinite", index, &Value::Null);
     let mut o = CaseOut { viols: vec![], hist: vec![], steps: 0, states: 0, transitions: 0 };
-    let out = run_case(case, false, false, 12, 20_000);
+    // odd cases use the alternative build (other conjunction constructors; `loop { a, b }` as
+    // two clauses instead of one bracketed clause)
+    let out = run_case(case, false, index % 2 == 1, 12, 20_000);
     o.steps += out.steps;
     if let Stop::Panic(m) = &out.stop {
         o.viols.push(mk("panic", "c06-infinite", index, case, m.clone(), panic_site(m)));
@@ -777,7 +779,9 @@ fn head_all(case: &Case, head: &Tr) -> (Vec<Trace>, Stop) {
 fn check_c08(case: &Case, index: usize) -> CaseOut {
     crate::ev::progress("c08-e4", index, &Value::Null);
     let mut o = CaseOut { viols: vec![], hist: vec![], steps: 0, states: 0, transitions: 0 };
-    let out = run_case(case, false, false, 40, 60_000);
+    // odd cases use the alternative build (`onceo { a, b }` as two clauses instead of one
+    // bracketed clause `onceo { [a, b] }`)
+    let out = run_case(case, false, index % 2 == 1, 40, 60_000);
     o.steps += out.steps;
     if let Stop::Panic(m) = &out.stop {
         o.viols.push(mk("panic", "c08-e4", index, case, m.clone(), panic_site(m)));
